@@ -2,12 +2,15 @@
 Executable exact-arithmetic model of `tenpy/linalg/krylov_based.py` (import-free).
 
 Vectors are `List Rat`, an operator is any function `Vec → Vec` (`H.matvec`).  The only operation of
-the source that leaves the rationals is `npc.norm` (a square root); it is a PARAMETER `sq : Rat → Rat`
-(`norm w = sq (dot w w)`).  Theorems that need `sq` to be a square root say so as a hypothesis on
-the values met during the run; the line-protocol driver instantiates `sq` by a rational
-approximation with absolute error `< 2^-p` (default p = 160) of the real square root.  The dense
-eigenproblem of the small tridiagonal / Hessenberg matrix (`np.linalg.eigh/eig`) and the
-convergence test that is computed from it are parameters as well (`conv`, `vf`).
+the source that leaves the rationals is `npc.norm` (a square root); it is a PARAMETER `ar.sq`
+(`norm w = ar.sq (dot w w)`).  The second parameter `ar.rnd` is applied to every entry of a vector
+right after `iscale_prefactor(w, 1/norm)`: `rnd = id` is exact arithmetic, the line-protocol
+driver rounds to a multiple of `2^-p` (default p = 200) there, which keeps the exact rationals of a
+run with an approximated square root from tripling in size at every step.  Theorems about the
+bookkeeping (cache independence, rebuild) hold for EVERY `ar`, hence also for the instance the
+driver executes; theorems that need a true square root / no rounding say so as hypotheses.  The
+dense eigenproblem of the small tridiagonal / Hessenberg matrix (`np.linalg.eigh/eig`) and the
+convergence test computed from it are parameters as well (`conv`, `vf`).
 
 Source anchors (tenpy/linalg/krylov_based.py)
 * `buildStep/buildLoop/build`      `LanczosGroundState._build_krylov`
@@ -40,19 +43,27 @@ def matvec (H : List Vec) (x : Vec) : Vec := H.map (fun r => dot r x)
 
 def rabs (x : Rat) : Rat := if x < 0 then -x else x
 
+/-- the two non-rational ingredients of a run -/
+structure Arith where
+  sq : Rat → Rat
+  rnd : Rat → Rat
+
+/-- `w.iscale_prefactor(1. / nrm)` -/
+def normalize (ar : Arith) (nrm : Rat) (w : Vec) : Vec := (scale (1 / nrm) w).map ar.rnd
+
 /-- sequentially project out the vectors `os` (`for o in os: v -= <o|v> o`) -/
 def projOut (os : List Vec) (v : Vec) : Vec := os.foldl (fun v o => axpy (-(dot o v)) o v) v
 
 /-! ### gram_schmidt -/
 
 /-- one round of the outer loop of `gram_schmidt` -/
-def gsStep (sq : Rat → Rat) (rcond : Rat) (res : List Vec) (vec : Vec) : List Vec :=
+def gsStep (ar : Arith) (rcond : Rat) (res : List Vec) (vec : Vec) : List Vec :=
   let v := projOut res vec
-  let n := sq (dot v v)
-  if n > rcond then res ++ [scale (1 / n) v] else res
+  let n := ar.sq (dot v v)
+  if n > rcond then res ++ [normalize ar n v] else res
 
-def gramSchmidt (sq : Rat → Rat) (rcond : Rat) (vecs : List Vec) : List Vec :=
-  vecs.foldl (gsStep sq rcond) []
+def gramSchmidt (ar : Arith) (rcond : Rat) (vecs : List Vec) : List Vec :=
+  vecs.foldl (gsStep ar rcond) []
 
 /-! ### linear-operator wrappers (tenpy/linalg/sparse.py) -/
 
@@ -110,36 +121,36 @@ structure BState where
   betas : List Rat      -- h[k,k+1] = h[k+1,k]
 
 /-- body of the `for k in range(N_max)` loop of `_build_krylov` up to `beta = norm(w)` -/
-def buildStep (A : Vec → Vec) (sq : Rat → Rat) (o : Opts) (k : Nat) (s : BState) : BState :=
-  let v := scale (1 / s.beta) s.w
+def buildStep (A : Vec → Vec) (ar : Arith) (o : Opts) (k : Nat) (s : BState) : BState :=
+  let v := normalize ar s.beta s.w
   let cache := toCache o.nCache s.cache v
   let w := A v
   let last := cache.getLastD []
   let alpha := dot w last
   let w := axpy (-alpha) last w
   let w := orth o.reortho k s.beta cache w
-  let beta := sq (dot w w)
+  let beta := ar.sq (dot w w)
   { cache := cache, w := w, beta := beta, alphas := s.alphas ++ [alpha], betas := s.betas ++ [beta] }
 
 /-- the loop with both exits: `abs(beta) < cutoff or (k + 1 >= N_min and self._converged(k))`.
 `conv k alphas betas` stands for `_converged(k)` (computed from the dense eigen-decomposition).
 Returns the number of steps `N = k + 1`. -/
-def buildLoop (A : Vec → Vec) (sq : Rat → Rat) (o : Opts) (conv : Nat → List Rat → List Rat → Bool) :
+def buildLoop (A : Vec → Vec) (ar : Arith) (o : Opts) (conv : Nat → List Rat → List Rat → Bool) :
     Nat → Nat → BState → Nat × BState
   | 0, k, s => (k, s)
   | fuel + 1, k, s =>
-    let s' := buildStep A sq o k s
+    let s' := buildStep A ar o k s
     if rabs s'.beta < o.cutoff || (k + 1 ≥ o.nMin && conv k s'.alphas s'.betas) then (k + 1, s')
-    else buildLoop A sq o conv fuel (k + 1) s'
+    else buildLoop A ar o conv fuel (k + 1) s'
 
-def initState (sq : Rat → Rat) (psi0 : Vec) : BState :=
-  { cache := [], w := psi0, beta := sq (dot psi0 psi0), alphas := [], betas := [] }
+def initState (ar : Arith) (psi0 : Vec) : BState :=
+  { cache := [], w := psi0, beta := ar.sq (dot psi0 psi0), alphas := [], betas := [] }
 
 /-- `_build_krylov`; `none` = `ValueError('Norm of self.psi0 too small')` -/
-def build (A : Vec → Vec) (sq : Rat → Rat) (o : Opts) (conv : Nat → List Rat → List Rat → Bool)
+def build (A : Vec → Vec) (ar : Arith) (o : Opts) (conv : Nat → List Rat → List Rat → Bool)
     (psi0 : Vec) : Option (Nat × BState) :=
-  let s0 := initState sq psi0
-  if s0.beta < o.cutoff then none else some (buildLoop A sq o conv o.nMax 0 s0)
+  let s0 := initState ar psi0
+  if s0.beta < o.cutoff then none else some (buildLoop A ar o conv o.nMax 0 s0)
 
 /-- `for k in range(1, min(len_cache + 1, N)): psif += vf[N - k] * cache[-k]` -/
 def addCached (vf : List Rat) (N : Nat) (cache : List Vec) (psif : Vec) : Vec :=
@@ -153,32 +164,32 @@ structure RState where
   psif : Vec
 
 /-- body of the loop of `_rebuild_krylov_for_result_full` -/
-def rebuildStep (A : Vec → Vec) (o : Opts) (alphas betas vf : List Rat) (r : RState) (k : Nat) : RState :=
+def rebuildStep (A : Vec → Vec) (ar : Arith) (o : Opts) (alphas betas vf : List Rat) (r : RState) (k : Nat) : RState :=
   let cache := toCache o.nCache r.cache r.w
   let w := A r.w
   let alpha := alphas.getD k 0
   let w := axpy (-alpha) (cache.getLastD []) w
   let w := orth o.reortho k r.beta cache w
   let beta := betas.getD k 0
-  let w := scale (1 / beta) w
+  let w := normalize ar beta w
   { cache := cache, w := w, beta := beta, psif := axpy (vf.getD (k + 1) 0) w r.psif }
 
-def rebuild (A : Vec → Vec) (o : Opts) (alphas betas vf : List Rat) (n : Nat) (psi0n psif : Vec) : Vec :=
-  ((List.range n).foldl (rebuildStep A o alphas betas vf)
+def rebuild (A : Vec → Vec) (ar : Arith) (o : Opts) (alphas betas vf : List Rat) (n : Nat) (psi0n psif : Vec) : Vec :=
+  ((List.range n).foldl (rebuildStep A ar o alphas betas vf)
     { cache := [], w := psi0n, beta := 0, psif := psif }).psif
 
 /-- `_calc_result_full(N)` with `self._result_krylov = vf`, `self.psi0 = psi0n` (already normalised in
 place by the build loop), `self._cache = cache`. -/
-def calcResultFull (A : Vec → Vec) (sq : Rat → Rat) (o : Opts) (N : Nat) (vf : List Rat) (psi0n : Vec)
+def calcResultFull (A : Vec → Vec) (ar : Arith) (o : Opts) (N : Nat) (vf : List Rat) (psi0n : Vec)
     (cache : List Vec) (alphas betas : List Rat) : Vec :=
   let psif := scale (vf.getD 0 0) psi0n
   let psif := addCached vf N cache psif
-  let psif := rebuild A o alphas betas vf (N - cache.length - 1) psi0n psif
-  let nrm := sq (dot psif psif)
-  scale (1 / nrm) psif
+  let psif := rebuild A ar o alphas betas vf (N - cache.length - 1) psi0n psif
+  let nrm := ar.sq (dot psif psif)
+  normalize ar nrm psif
 
 /-- `self.psi0` after the first `iscale_prefactor(w, 1/beta)` of the build loop -/
-def psi0n (sq : Rat → Rat) (psi0 : Vec) : Vec := scale (1 / sq (dot psi0 psi0)) psi0
+def psi0n (ar : Arith) (psi0 : Vec) : Vec := normalize ar (ar.sq (dot psi0 psi0)) psi0
 
 structure GSResult where
   E0 : Rat
@@ -190,34 +201,34 @@ structure GSResult where
 /-- `LanczosGroundState.run`.  `eig N alphas betas = (E, vf)`: smallest eigenvalue and a normalised
 eigenvector of the tridiagonal matrix `(alphas[:N], betas[:N-1])`, i.e. `Es[N-1, 0]` and
 `_result_krylov` after `_calc_result_krylov(N-1)`. -/
-def runGS (H : Op) (sq : Rat → Rat) (o : Opts) (eShift : Option Rat)
+def runGS (H : Op) (ar : Arith) (o : Opts) (eShift : Option Rat)
     (conv : Nat → List Rat → List Rat → Bool) (eig : Nat → List Rat → List Rat → Rat × List Rat)
     (psi0 : Vec) : Option GSResult :=
   let A := (withShift H eShift).apply
-  match build A sq o conv psi0 with
+  match build A ar o conv psi0 with
   | none => none
   | some (N, s) =>
     let (E, vf) := eig N s.alphas s.betas
     let E0 := match eShift with | some sh => E - sh | none => E
-    let p0 := psi0n sq psi0
+    let p0 := psi0n ar psi0
     if N = 1 then some ⟨E0, p0, N, s.alphas, s.betas⟩
-    else some ⟨E0, calcResultFull A sq o N vf p0 s.cache s.alphas s.betas, N, s.alphas, s.betas⟩
+    else some ⟨E0, calcResultFull A ar o N vf p0 s.cache s.alphas s.betas, N, s.alphas, s.betas⟩
 
 /-- `LanczosEvolution.run(delta, normalize)` (first call on a fresh object).  `small N alphas betas =
 (vf, resultNorm)`: the normalised `expm(delta h) e_0` and its norm (`_result_krylov`, `_result_norm`). -/
-def runEvo (H : Op) (sq : Rat → Rat) (o : Opts) (eShift : Option Rat)
+def runEvo (H : Op) (ar : Arith) (o : Opts) (eShift : Option Rat)
     (conv : Nat → List Rat → List Rat → Bool) (small : Nat → List Rat → List Rat → List Rat × Rat)
     (normalize : Bool) (psi0 : Vec) : Option (Vec × Nat) :=
   let A := (withShift H eShift).apply
-  match build A sq o conv psi0 with
+  match build A ar o conv psi0 with
   | none => none
   | some (N, s) =>
     let (vf, rn) := small N s.alphas s.betas
-    let p0 := psi0n sq psi0
+    let p0 := psi0n ar psi0
     let full := if N = 1 then scale (vf.getD 0 0) p0
-                else calcResultFull A sq o N vf p0 s.cache s.alphas s.betas
+                else calcResultFull A ar o N vf p0 s.cache s.alphas s.betas
     if normalize then some (full, N)
-    else some (scale (sq (dot psi0 psi0) * rn) full, N)
+    else some (scale (ar.sq (dot psi0 psi0) * rn) full, N)
 
 /-! ### Arnoldi (`Arnoldi._build_krylov`, `Arnoldi._calc_result_full`) -/
 
@@ -235,26 +246,26 @@ def mgs : List Vec → Vec → List Rat × Vec
     let r := mgs cs (axpy (-ov) c w)
     (ov :: r.1, r.2)
 
-def arnoldiStep (A : Vec → Vec) (sq : Rat → Rat) (s : AState) : AState :=
-  let v := scale (1 / s.norm) s.w
+def arnoldiStep (A : Vec → Vec) (ar : Arith) (s : AState) : AState :=
+  let v := normalize ar s.norm s.w
   let cache := s.cache ++ [v]
   let w := A v
   let r := mgs cache w
-  let nrm := sq (dot r.2 r.2)
+  let nrm := ar.sq (dot r.2 r.2)
   { cache := cache, w := r.2, norm := nrm, cols := s.cols ++ [r.1 ++ [nrm]] }
 
-def arnoldiLoop (A : Vec → Vec) (sq : Rat → Rat) (nMin : Nat) (cutoff : Rat)
+def arnoldiLoop (A : Vec → Vec) (ar : Arith) (nMin : Nat) (cutoff : Rat)
     (conv : Nat → List (List Rat) → Bool) : Nat → Nat → AState → Nat × AState
   | 0, k, s => (k, s)
   | fuel + 1, k, s =>
-    let s' := arnoldiStep A sq s
+    let s' := arnoldiStep A ar s
     if s'.norm < cutoff || (k + 1 ≥ nMin && conv k s'.cols) then (k + 1, s')
-    else arnoldiLoop A sq nMin cutoff conv fuel (k + 1) s'
+    else arnoldiLoop A ar nMin cutoff conv fuel (k + 1) s'
 
-def arnoldiBuild (A : Vec → Vec) (sq : Rat → Rat) (nMin nMax : Nat) (cutoff : Rat)
+def arnoldiBuild (A : Vec → Vec) (ar : Arith) (nMin nMax : Nat) (cutoff : Rat)
     (conv : Nat → List (List Rat) → Bool) (psi0 : Vec) : Nat × AState :=
-  arnoldiLoop A sq nMin cutoff conv nMax 0
-    { cache := [], w := psi0, norm := sq (dot psi0 psi0), cols := [] }
+  arnoldiLoop A ar nMin cutoff conv nMax 0
+    { cache := [], w := psi0, norm := ar.sq (dot psi0 psi0), cols := [] }
 
 /-- `psi = sum_k vf[k] basis[k]`, normalised -/
 def lincomb (vf : List Rat) (basis : List Vec) : Vec :=
@@ -262,9 +273,9 @@ def lincomb (vf : List Rat) (basis : List Vec) : Vec :=
   | c :: cs, b :: bs => (List.zip cs bs).foldl (fun p cb => axpy cb.1 cb.2 p) (scale c b)
   | _, _ => []
 
-def arnoldiResult (sq : Rat → Rat) (vf : List Rat) (basis : List Vec) : Vec :=
+def arnoldiResult (ar : Arith) (vf : List Rat) (basis : List Vec) : Vec :=
   let psi := lincomb vf basis
-  scale (1 / sq (dot psi psi)) psi
+  normalize ar (ar.sq (dot psi psi)) psi
 
 /-! ### GMRES on real data (`GMRES.arnoldi/apply_givens_rotation/givens_rotation/backsolve`) -/
 
@@ -276,23 +287,23 @@ def applyRots : List (Rat × Rat) → List Rat → List Rat
 
 /-- new rotation from the last two entries `(v1, v2)` of the rotated column; returns the column with
 `H[k,k] = c v1 + s v2`, `H[k+1,k] = 0` and the pair `(c, s)` -/
-def newRot (sq : Rat → Rat) (col : List Rat) : List Rat × (Rat × Rat) :=
+def newRot (ar : Arith) (col : List Rat) : List Rat × (Rat × Rat) :=
   let k := col.length - 2
   let v1 := col.getD k 0
   let v2 := col.getD (k + 1) 0
-  let t := sq (v1 * v1 + v2 * v2)
-  let c := v1 / t
-  let s := v2 / t
+  let t := ar.sq (v1 * v1 + v2 * v2)
+  let c := ar.rnd (v1 / t)
+  let s := ar.rnd (v2 / t)
   (col.take k ++ [c * v1 + s * v2, 0], (c, s))
 
 /-- solve the upper-triangular system `R y = g` given by columns (`backsolve`) -/
-def backsolve (cols : List (List Rat)) (g : List Rat) : List Rat :=
+def backsolve (ar : Arith) (cols : List (List Rat)) (g : List Rat) : List Rat :=
   let k := cols.length
   (List.range k).foldr (fun i y =>
       -- y holds y[i+1..k-1]
       let s := (List.range (k - 1 - i)).foldl
         (fun acc j => acc - ((cols.getD (i + 1 + j) []).getD i 0) * y.getD j 0) (g.getD i 0)
-      (s / ((cols.getD i []).getD i 0)) :: y) []
+      ar.rnd (s / ((cols.getD i []).getD i 0)) :: y) []
 
 structure GState where
   qs : List Vec
@@ -301,14 +312,14 @@ structure GState where
   g : List Rat              -- the rotated `e1`
   errs : List Rat           -- |g[k+1]| (un-normalised residual estimates)
 
-def gmresStep (A : Vec → Vec) (sq : Rat → Rat) (s : GState) : GState :=
+def gmresStep (A : Vec → Vec) (ar : Arith) (s : GState) : GState :=
   let q := A (s.qs.getLastD [])
   -- note: GMRES.arnoldi updates q sequentially exactly like `mgs`
   let r := mgs s.qs q
-  let nrm := sq (dot r.2 r.2)
-  let qn := if nrm > 0 then scale (1 / nrm) r.2 else r.2
+  let nrm := ar.sq (dot r.2 r.2)
+  let qn := if nrm > 0 then normalize ar nrm r.2 else r.2
   let col := applyRots s.rots (r.1 ++ [nrm])
-  let (col', cs) := newRot sq col
+  let (col', cs) := newRot ar col
   let k := s.cols.length
   let gk := s.g.getD k 0
   let g' := s.g.take k ++ [cs.1 * gk, -cs.2 * gk]
@@ -317,12 +328,12 @@ def gmresStep (A : Vec → Vec) (sq : Rat → Rat) (s : GState) : GState :=
 
 /-- one restart cycle with exactly `n` inner iterations from start guess `x`; returns the new `x`,
 and the residual estimates `|e1[k+1]|` -/
-def gmresCycle (A : Vec → Vec) (sq : Rat → Rat) (n : Nat) (x b : Vec) : Vec × List Rat :=
+def gmresCycle (A : Vec → Vec) (ar : Arith) (n : Nat) (x b : Vec) : Vec × List Rat :=
   let r0 := axpy (-1) (A x) b
-  let rn := sq (dot r0 r0)
-  let s0 : GState := { qs := [scale (1 / rn) r0], rots := [], cols := [], g := [rn], errs := [] }
-  let s := (List.range n).foldl (fun s _ => gmresStep A sq s) s0
-  let y := backsolve s.cols s.g
+  let rn := ar.sq (dot r0 r0)
+  let s0 : GState := { qs := [normalize ar rn r0], rots := [], cols := [], g := [rn], errs := [] }
+  let s := (List.range n).foldl (fun s _ => gmresStep A ar s) s0
+  let y := backsolve ar s.cols s.g
   ((List.zip y s.qs).foldl (fun x yq => axpy yq.1 yq.2 x) x, s.errs)
 
 end TenpyModel.C16
